@@ -12,7 +12,7 @@ elab "#audit_ns " ns:ident : command => do
   let nsName := ns.getId
   let mut names : Array Name := #[]
   for (n, ci) in env.constants.toList do
-    if nsName.isPrefixOf n && !n.isInternalDetail then
+    if nsName.isPrefixOf n && !n.isInternalDetail && !(env.isProjectionFn n) then
       match ci with
       | .thmInfo _ => names := names.push n
       | _ => pure ()
